@@ -74,7 +74,7 @@ impl Prop for C01 {
         "texts: (a) enumerated: every single ASCII character, every pair (blank or newline between) and every triple of token-class \
          representatives (one alias per keyword class, word, proper word, number, string, comment, symbols, suffixes, error tokens); \
          (b) token soup; (c) token-level mutations (delete/duplicate/swap/splice/truncate/join lines) of the repository's test programs; \
-         (d) deep chains up to 400 levels; (e) 54 flat floods: 20 000 and 50 000 repetitions of one unit without any nesting (adjacent comments, blank lines, statements, one-line blocks, poetic words / periods / suffixes, list, argument and parameter entries, apostrophes, noise, lines inside one string or comment), parsed on an 8 MiB stack. non-trivial = >= 3 coarse tokens; distinct by text"
+         (d) deep chains up to 400 levels; (e) 54 flat floods: 20 000 and 50 000 repetitions of one unit without any nesting (adjacent comments, blank lines, statements, one-line blocks, poetic words / periods / suffixes, list, argument and parameter entries, apostrophes, noise, lines inside one string or comment), parsed on a 2 MiB stack, in-process and by the real tool (`rrss parse`, a build without optimisation in the dev profile). non-trivial = >= 3 coarse tokens; distinct by text"
             .into()
     }
     fn assumptions(&self) -> Vec<String> {
@@ -139,7 +139,7 @@ impl Prop for C01 {
             v.push(TextCase { src: format!("x is {}", "abc ".repeat(d)) });
         }
         // flat floods: tens of thousands of repetitions of one unit with no nesting at all (see `check`: these are
-        // parsed on a thread with an ordinary 8 MiB stack)
+        // parsed on a thread with an ordinary 2 MiB stack)
         let mut floods = vec![];
         for (prefix, unit, suffix) in FLOODS {
             for n in [20_000usize, 50_000] {
@@ -181,11 +181,11 @@ impl Prop for C01 {
                 Err(e) => Err(e),
             })
         };
-        // A long text without nesting must not need more stack than a short one: it is parsed on a thread with the 8 MiB
-        // an ordinary main thread has (the shard's own stack is 1 GiB, for the deep chains).  Running out of it kills
+        // A long text without nesting must not need more stack than a short one: it is parsed on a thread with the 2 MiB
+        // a spawned thread has by default (the shard's own stack is 1 GiB, for the deep chains).  Running out of it kills
         // the process; the driver's post-mortem then names the case.
         let r = if src.len() > 65_536 && nesting_depth(&src) <= 50 {
-            labels.push("long_flat_text_on_8MiB_stack".into());
+            labels.push("long_flat_text_on_2MiB_stack".into());
             // ... and by the real tool (`rrss parse`), which in the dev profile is a build without any optimisation
             match super::c20::tool_dies_parsing(&src) {
                 Ok(Some(how)) => {
@@ -200,7 +200,7 @@ impl Prop for C01 {
                 Err(why) => labels.push(format!("tool_leg_skipped:{}", why)),
             }
             let s2 = src.clone();
-            std::thread::Builder::new().stack_size(8 << 20).spawn(move || parse(&s2)).expect("spawn").join().expect("flat-text thread")
+            std::thread::Builder::new().stack_size(2 << 20).spawn(move || parse(&s2)).expect("spawn").join().expect("flat-text thread")
         } else {
             parse(&src)
         };
@@ -233,7 +233,7 @@ impl Prop for C01 {
         fnv_str(&c.src)
     }
     fn expected_labels(&self) -> Vec<String> {
-        let mut v: Vec<String> = ["ok", "non_ascii", "depth>50", "else_at_block_start", "long_flat_text_on_8MiB_stack"].iter().map(|s| s.to_string()).collect();
+        let mut v: Vec<String> = ["ok", "non_ascii", "depth>50", "else_at_block_start", "long_flat_text_on_2MiB_stack"].iter().map(|s| s.to_string()).collect();
         for code in [
             "MissingIDAfterCommonPrefix",
             "MutationOperandMustBeIdentifier",
